@@ -281,3 +281,46 @@ theorem nextRequest_spec (env : Env) : ∀ (qs : List Name) (st : St), NextReqSp
           · exact hbuild
         · exact hbuild
     · exact hbuild
+
+/-- an outcome that decides the resolution or the candidate (answer, NoAnswer, YXDOMAIN, validated NXDOMAIN) never
+counts against the server that gave it -/
+theorem queryResult_decisive_not_broken {env : Env} {st : St} {ns : Server} {out : Outcome} :
+    (∀ r st', queryResult env st ns out = .raise r st' → provesBroken env st.qname st.tcpAttempt out = false) ∧
+    (∀ a d st', queryResult env st ns out = .ret (some a) d st' →
+        provesBroken env st.qname st.tcpAttempt out = false) ∧
+    (∀ st', queryResult env st ns out = .ret none true st' →
+        provesBroken env st.qname st.tcpAttempt out = false) := by
+  refine ⟨?_, ?_, ?_⟩
+  · intro r st' h
+    unfold queryResult at h
+    repeat' split at h
+    all_goals first
+      | cases h
+      | skip
+    all_goals simp_all [provesBroken, mkAnswer, rcNOERROR, rcNXDOMAIN, rcYXDOMAIN]
+    all_goals first
+      | grind
+      | (generalize resolveChaining env.maxChain _ st.qname env.rdclass env.rdtype = rc at *
+         cases rc <;> first | simp_all | grind)
+  · intro a d st' h
+    unfold queryResult at h
+    repeat' split at h
+    all_goals first
+      | cases h
+      | skip
+    all_goals simp_all [provesBroken, mkAnswer, rcNOERROR, rcNXDOMAIN, rcYXDOMAIN]
+    all_goals first
+      | grind
+      | (generalize resolveChaining env.maxChain _ st.qname env.rdclass env.rdtype = rc at *
+         cases rc <;> first | simp_all | grind)
+  · intro st' h
+    unfold queryResult at h
+    repeat' split at h
+    all_goals first
+      | cases h
+      | skip
+    all_goals simp_all [provesBroken, mkAnswer, rcNOERROR, rcNXDOMAIN, rcYXDOMAIN]
+    all_goals first
+      | grind
+      | (generalize resolveChaining env.maxChain _ st.qname env.rdclass env.rdtype = rc at *
+         cases rc <;> first | simp_all | grind)
